@@ -39,6 +39,10 @@ def gen_file(rng, small=False):
     e.with_shdrs = rng.random() < 0.92
     if rng.random() < 0.3:
         dup_version_sections(rng, e, info)
+    if rng.random() < 0.15:          # undecodable / odd names early in the table: a by-name scan must skip them, not stop
+        for nm in rng.sample([b"\xff\xfe", b".caf\xc3\xa9", b"", b".tex", b".text.hot"], 2):
+            e.add(nm, 1, rand_bytes(rng, 3))
+        e.permute(rng)               # (keeps sh_link / segment references pointing at the same sections)
     if rng.random() < 0.3:
         e.permute(rng)
     data, meta = e.build(rng, pad=rng.choice([0, 0, 0, 8, 64]))
